@@ -547,7 +547,9 @@ func (s *Server) fieldsToTypedMaps(fields models.Fields) (
 			}
 			bools[k] = value
 		default:
-			panic("unsupported field value type")
+			// The UDF protocol has no representation for this value (i.e. a duration or a null value),
+			// report it and send the point without the field.
+			s.diag.Error("skipping field, cannot send value to UDF", fmt.Errorf("unsupported field value type %T", v), keyvalue.KV("field", k))
 		}
 	}
 	return
